@@ -14,7 +14,12 @@ TRUSTED = [
     "translator/c15.py (ipc_kernel guards + 3x3 literal, the statement of simple_collection, the mask assignment of "
     "apply_simple_full_well_capacity, both branches of apply_qe, the argument-or-characteristics selection and the "
     "guards of simple_full_well and simple_conversion, the range checks and the capacity selection of cdm and the "
-    "keywords it hands to run_cdm_* -> Gen_C15.src_*; fails closed on any other shape)",
+    "keywords it hands to run_cdm_*, the single whole-frame convolve_fft call of compute_ipc_convolution with "
+    "boundary fill = mean -> Gen_C15.src_*; fails closed on any other shape) and translator/c15_norm.py (the functions "
+    "are first rewritten into one canonical shape by behaviour-preserving rules: same-package helpers inlined, "
+    "single-assignment aliases and call-free intermediate results substituted unless something in between could make "
+    "them stale, match -> if/elif, conditional expression <-> if/else, guard-clause form, split comparison chains, "
+    "module-level numeric constants, annotations / docstrings / logging dropped)",
     "correspondence harness: harness/props/c15.py generators, harness/drivers/c15.py, float.hex() -> exact rationals; "
     "frames are transposed to per-pixel species lists (persistence) and to lines in transfer order (CDM) in Python",
     "modelled, not verified: numpy/numba elementwise float64 arithmetic is exact on the generated dyadic inputs "
@@ -24,7 +29,10 @@ TRUSTED = [
     "pandas keeps the rows of the particle frame (concat) - the particle frame itself is not modelled, only the "
     "sequence of add_charge_array / add_charge calls and the re-binned array",
     "astropy.convolve_fft (FFT rounding; kernel normalisation is the identity for weights summing to one): compared "
-    "with relative tolerance 1e-9 on the implementation side only",
+    "with relative tolerance 1e-9 on the implementation side only; tall thin frames (block-size + a few rows, up to "
+    "4096 rows) are TESTED against the conservation clause on the implementation's output (window total unchanged, "
+    "nothing changes outside the window, dense 3x3 reference in numpy) - only their 12-row window goes through the "
+    "Coq model",
     "CDM: exp / pow are abstract range-constrained factors in the theorem and a**beta is taken as a * a**(beta-1); "
     "the real run_cdm_parallel/serial are TESTED against the theorem's conclusion (no negative pixel, line total "
     "not above the input within 1e-9 relative) for general parameters, and compared with the exact-arithmetic model "
@@ -295,6 +303,71 @@ def gen_ipc(r):
     c, d, a = gen_couplings(r, True)
     fr, fk = gen_frame(r, shape, hi=r.choice([100, 2000, 60000]))
     return dict(kind="ipc", c=c, d=d, a=a, frame=fr, path=r.choice(["func", "model"]), fk=fk)
+
+
+TALL_SEAMS = [256, 512, 1024, 2048, 4096]          # usual block / tile sizes
+
+
+def source_size_constants(repo) -> list:
+    """integer constants between 32 and 8192 that occur in the IPC source (block sizes, thresholds): frame sizes are
+    planted around them too - boundary values are read from the code under test, whatever it is"""
+    import ast
+    try:
+        tree = ast.parse((repo / "pyxel/models/charge_collection/inter_pixel_capacitance.py").read_text())
+    except Exception:
+        return []
+    out = set()
+    for n in ast.walk(tree):
+        if isinstance(n, ast.Constant) and isinstance(n.value, int) and not isinstance(n.value, bool) and 32 <= n.value <= 8192:
+            out.add(n.value)
+    return sorted(out)
+
+
+def gen_ipc_tall(r, seam, cols=None, offset=None):
+    """A tall, thin frame (seam + a few rows), `base` everywhere except six consecutive rows around `seam` that carry
+    deviations summing to ZERO, so that the frame mean - the fill value at the edges - is exactly `base`, everything
+    outside the window equals the fill value, and the window can be cut out: the 3x3 model applied to the window alone
+    is exactly what the implementation must return there; the window total must not change."""
+    cols = cols or r.choice([1, 2, 3, 4])
+    rows = seam + r.choice([8, 11, 14])     # the deviating rows stay at least three rows away from the frame's edges
+    c, d, a = gen_couplings(r, True)
+    base = float(r.choice([64, 256, 1024]))
+    devs = [32.0, -16.0, 8.0, -24.0, 16.0, -16.0]
+    if r.random() < 0.5:
+        devs = [-v for v in devs[::-1]]
+    first = seam - 3 + (offset if offset is not None else r.choice([-1, 0, 0, 1]))
+    first = max(3, min(first, rows - 9))
+    # columns: with 1 or 2 columns every pixel gives the same share to the fill beyond the left / right edge (the shares
+    # cancel as the deviations do); with more columns the deviations sit in interior columns, which give nothing to it
+    hot = [[first + i, (r.randrange(cols) if cols <= 2 else r.randrange(1, cols - 1)), dv] for i, dv in enumerate(devs)]
+    w0, w1 = first - 3, first + 9
+    assert 0 <= w0 and w1 <= rows and sum(dv for _, _, dv in hot) == 0
+    crop = [[base] * cols for _ in range(w1 - w0)]
+    for rr, cc, dv in hot:
+        crop[rr - w0][cc] += dv
+    return dict(kind="ipc", c=c, d=d, a=a, frame=crop, path=r.choice(["func", "model"]), fk="tall",
+                tall=dict(rows=rows, cols=cols, base=base, hot=hot, w0=w0, w1=w1, seam=seam))
+
+
+def tall_ipc_verdict(c, o):
+    """-> None if the conservation clause holds on a tall-frame observation, else a description (exact arithmetic on the
+    observed floats; 1e-9 relative, as for the FFT everywhere else)"""
+    if "tall" not in c or "out" not in o or "tall" not in o:
+        return None
+    t = o["tall"]
+    if not t.get("finite", True):
+        return dict(change="non-finite")
+    fin = sum(Fraction(v) for row in c["frame"] for v in row)
+    fout = sum(Fraction(fx(h)) for row in o["out"] for h in row)
+    scale = 1 + sum(abs(Fraction(v)) for row in c["frame"] for v in row)
+    tol = Fraction(1, 10 ** 9)
+    if abs(fout - fin) > tol * scale:
+        return dict(change="loss" if fout < fin else "gain", window_total_in=float(fin), window_total_out=float(fout))
+    if Fraction(fx(t["outside_dev"])) > tol * scale:
+        return dict(change="outside the window", deviation=fx(t["outside_dev"]))
+    if Fraction(fx(t["dense_dev"])) > tol * scale:
+        return dict(change="redistribution", deviation=fx(t["dense_dev"]), row=t["dense_row"])
+    return None
 
 
 def gen_persist(r, force_species=None):
@@ -581,6 +654,13 @@ def gen_cases(ctx: Ctx, salt="cases", scale=1.0):
         cases.append(gen_collectp(r, held=held))
     for _ in range(ctx.budget(6, 30)):
         cases.append(gen_cdm(r, contrast=True))
+    seams = sorted(set(TALL_SEAMS[:4] + [v for v in source_size_constants(ctx.repo) if v >= 64]))
+    for seam in (seams if not ctx.quick else seams[:6]):
+        cases.append(gen_ipc_tall(r, seam))
+    if not ctx.quick and salt == "cases":
+        for seam in TALL_SEAMS:
+            for off in (-2, -1, 0, 1, 2):
+                cases.append(gen_ipc_tall(r, seam, offset=off))
     if not ctx.quick and salt == "cases":
         cases += exhaustive_persist() + exhaustive_small_scope()
     order = {"collect": 0, "collectp": 0, "qe": 1, "fullwell": 2, "kernel": 3, "ipc": 4, "persist": 5, "cdm": 6}
@@ -867,6 +947,21 @@ def judge(ctx: Ctx, cases, tag):
         ctx.violations.append(Violation(clause=clause, case=case, observed=observed,
                                         expected="the conclusion of the C15 theorems (Model/Conservation.v case_violates)",
                                         what=what, sig=sig))
+    # tall IPC frames: conservation of the window total / no change outside / dense 3x3 reference, judged on the
+    # implementation's output (a test against the clause, not a model evaluation: 1000-row frames stay out of vm_compute;
+    # the window itself IS compared with the Coq model above)
+    n_tall = 0
+    for i, (c, o) in enumerate(pairs):
+        v = tall_ipc_verdict(c, o)
+        if v is not None and n_tall < 3:
+            n_tall += 1
+            t = c["tall"]
+            ctx.violations.append(Violation(
+                clause="ipc_conserves", case=c, observed=o,
+                expected="window total unchanged, frame unchanged outside the window, every pixel = 3x3 weighted sum "
+                         "(C15_ipc_weights: the weights sum to 1; dense reference)",
+                what=(f"ipc on a {t['rows']}x{t['cols']} frame, deviations around row {t['seam']}: {v}"),
+                sig=dict(kind="ipc", tall=True, change=v["change"])))
     for i in sorted(mism)[:8]:
         c, o = pairs[i]
         ctx.broken.append(Broken("correspondence", f"Model/Conservation.v vs implementation ({c['kind']})",
@@ -915,6 +1010,8 @@ def run(ctx: Ctx):
                          or "none")
                 ctx.dist("cdm_model_tie", "beta=1 exact factors" if c.get("exact") else
                          "any beta, factor table" if "tbls" in o else "specification only")
+        if c["kind"] == "ipc":
+            ctx.dist("ipc_rows", str(c["tall"]["rows"]) if "tall" in c else "<= 5")
         if c["kind"] == "collectp":
             ctx.dist("charge_held", c["held"])
         if c["kind"] == "fullwell" and c["path"] == "sources":
@@ -999,6 +1096,11 @@ def replay(ctx: Ctx, rp: dict) -> int:
     bad = core.parse_int_list(evals[1]) != []
     print("model agrees with implementation (evaluated in Coq):", core.parse_int_list(evals[0]) == [])
     print("specification (evaluated in Coq):", "VIOLATED" if bad else "holds")
+    tv = tall_ipc_verdict(case, obs)
+    if "tall" in case:
+        print("conservation clause on the tall frame (exact arithmetic on the observed output):",
+              f"VIOLATED {tv}" if tv else "holds")
+        bad = bad or tv is not None
     return 1 if bad else 0
 
 
